@@ -42,6 +42,9 @@ type checkDef struct {
 	Bounds       func(tier string) string
 	Explanation  string
 	EndSignature map[string]string // abnormal path end kind -> violation signature ("" = not a violation)
+	OnlyPrefix   string            // only violations whose signature has this prefix belong to this check
+	AlsoSigs     []string          // signatures of a shared harness that also belong to this check although they carry another property's prefix
+	UseStubs     bool              // install the vfs/stubs redirect table
 	NativeCheck  bool              // violations are confirmed by native playback of the same harness
 	NoNative     map[string]bool   // signatures that cannot be replayed natively with the harness (confirmed by other means)
 }
@@ -50,7 +53,6 @@ var checks = map[string]*checkDef{}
 
 func register(c *checkDef) { checks[c.ID] = c }
 
-func addRedirects(cfg *interp.Config) {}
 
 type knownFinding struct {
 	Property  string `json:"property"`
@@ -291,6 +293,9 @@ func runCheck(def *checkDef, tier string, seed int64, workers int) int {
 		return 2
 	}
 	cfg := defaultConfig()
+	if def.UseStubs {
+		addRedirects(&cfg)
+	}
 	for k, v := range def.Redirects {
 		cfg.Redirects[k] = v
 	}
@@ -384,6 +389,9 @@ func runCheck(def *checkDef, tier string, seed int64, workers int) int {
 			continue
 		}
 		results = append(results, res)
+		if res.Wall > 5 {
+			fmt.Printf("[%s]   job %s: %d paths in %.1fs (%d solver queries)\n", def.ID, j.Name, res.Paths, res.Wall, res.Solver.Queries)
+		}
 		total.paths += res.Paths
 		total.oblig += res.Oblig
 		total.disch += res.Discharged
@@ -440,7 +448,12 @@ func runCheck(def *checkDef, tier string, seed int64, workers int) int {
 	// 4. group violations by signature, confirm natively, match known findings
 	groups := map[string]*sigGroup{}
 	var order []string
+	otherProps := map[string]int{}
 	for _, v := range allViol {
+		if def.OnlyPrefix != "" && !strings.HasPrefix(v.ID, def.OnlyPrefix) && !containsStr(def.AlsoSigs, v.ID) {
+			otherProps[v.ID]++
+			continue
+		}
 		g := groups[v.ID]
 		if g == nil {
 			g = &sigGroup{Sig: v.ID}
@@ -615,6 +628,7 @@ func runCheck(def *checkDef, tier string, seed int64, workers int) int {
 		sigs = append(sigs, map[string]interface{}{"signature": sig, "paths": g.Count, "confirmed_natively": g.Confirmed, "known_finding": g.Known, "example": modelSummary(g.Examples[0].Model), "observed": g.Examples[0].Observed})
 	}
 	cov["violation_signatures"] = sigs
+	cov["violations_of_other_properties_seen_by_the_shared_harness"] = otherProps
 	nv := 0
 	for _, g := range groups {
 		if g.Confirmed && !g.Known {
@@ -815,4 +829,13 @@ func doReplay(def *checkDef, dir string) int {
 	}
 	fmt.Println("the violation does not reproduce")
 	return 0
+}
+
+func containsStr(l []string, s string) bool {
+	for _, x := range l {
+		if x == s {
+			return true
+		}
+	}
+	return false
 }
